@@ -7,7 +7,7 @@
    outgoing messages are compared after sorting on both sides.
    Not modelled (stated in checks/*.json): in-memory rate limiter (disabled,
    MaxInMemLogSize = 0), event listener, log text, entry-size limits of
-   log.entries (payloads in the simulator are tiny), LogQuery.
+   log.entries (payloads in the simulator are tiny; log queries are made with an unlimited size).
    No proofs in this file. *)
 From Coq Require Export List NArith Bool Lia.
 From RecordUpdate Require Export RecordUpdate.
@@ -148,13 +148,14 @@ Record raft := mkRaft {
   r_leader_update : option (N * N);  (* leaderID, term *)
   r_prev_state : N * N * N;          (* Peer.prevState: term, vote, commit *)
   r_oracle : N;                      (* value the implementation drew for the randomized timeout *)
+  r_log_query : option (N * N * bool * list entry); (* logQueryResult: first, last, ErrCompacted, entries *)
   r_panic : bool }.
 #[export] Instance eta_raft : Settable _ :=
   settable! mkRaft <r_id; r_role; r_term; r_vote; r_leader; r_applied; r_log; r_remotes; r_nonvotings;
     r_witnesses; r_votes; r_reads; r_msgs; r_dropped_entries; r_dropped_reads; r_ready;
     r_transfer_target; r_is_transfer_target; r_pending_cc; r_election_tick; r_heartbeat_tick;
     r_election_timeout; r_heartbeat_timeout; r_rand_timeout; r_check_quorum; r_prevote; r_quiesce;
-    r_snapshotting; r_tick_count; r_leader_update; r_prev_state; r_oracle; r_panic>.
+    r_snapshotting; r_tick_count; r_leader_update; r_prev_state; r_oracle; r_log_query; r_panic>.
 
 Definition panic (r : raft) : raft := r <| r_panic := true |>.
 
@@ -898,6 +899,26 @@ Definition handle_prevote_candidate_resp (r : raft) (m : msg) : raft :=
 (* ---- the dispatcher: which handler runs is read from the GENERATED table ---- *)
 
 (* handler names as generated from initializeHandlerMap *)
+(* handleLogQuery with getCommittedEntries for an unlimited size: ErrCompacted when the range
+   starts below the first index or above the commit index (or the log range is unavailable:
+   a pending snapshot over an empty log), the committed part of [low, high) otherwise;
+   checkBound panics when low lies above min(high, committed+1) *)
+Definition handle_log_query (r : raft) (m : msg) : raft :=
+  match r_log_query r with
+  | Some _ => panic r
+  | None =>
+    let l := r_log r in
+    let low := m_from m in
+    let high := N.min (m_to m) (l_committed l + 1) in
+    let mk := fun err ents => r <| r_log_query := Some (log_first l, l_committed l + 1, err, ents) |> in
+    if (low <? log_first l) || (l_committed l <? low) then mk true []
+    else if low =? high then mk false []
+    else if high <? low then panic r
+    else if (match l_pending_snap l with Some _ => true | None => false end) &&
+            (match l_ents l with [] => true | _ => false end) then mk true []
+    else mk false (log_entries_range l low high)
+  end.
+
 Definition run_handler (h : handler) (r : raft) (m : msg) : raft :=
   let with_peer := fun (f : raft -> msg -> pkind -> remote -> raft) =>
     match find_peer r (m_from m) with Some (k, rp) => f r m k rp | None => r end in
@@ -916,7 +937,7 @@ Definition run_handler (h : handler) (r : raft) (m : msg) : raft :=
   | H_handleNodeConfigChange => handle_node_config_change r m
   | H_handleLocalTick => r     (* dispatched in [handle]: needs the recursion *)
   | H_handleRestoreRemote => restore_remotes r (m_snapshot m)
-  | H_handleLogQuery => r
+  | H_handleLogQuery => handle_log_query r m
   | H_handleFollowerPropose | H_handleNonVotingPropose => handle_follower_propose r m
   | H_handleFollowerReplicate | H_handleNonVotingReplicate | H_handleWitnessReplicate =>
       handle_replicate_message (leader_is_available r m) m
@@ -1081,6 +1102,8 @@ Definition peer_reject_cc (r : raft) : raft :=
   raft_handle r ((msg0 mt_ConfigChangeEvent) <| m_reject := true |>).
 Definition peer_read_index (r : raft) (ctx : N * N) : raft :=
   raft_handle r ((msg0 mt_ReadIndex) <| m_hint := fst ctx |> <| m_hinthigh := snd ctx |>).
+Definition peer_query_raft_log (r : raft) (low high : N) : raft :=
+  raft_handle r ((msg0 mt_LogQuery) <| m_from := low |> <| m_to := high |>).
 Definition peer_leader_transfer (r : raft) (target : N) : raft :=
   raft_handle r ((msg0 mt_LeaderTransfer) <| m_to := r_id r |> <| m_hint := target |>).
 Definition peer_restore_remotes (r : raft) (s : snapshot) : raft :=
@@ -1168,7 +1191,7 @@ Definition commit_update (r : raft) (u : update) (last_applied : N) : raft :=
              ((0 <? last_applied) && ((l_committed l2 <? last_applied) ||
                                        ((if 0 <? processed then processed else l_processed l2) <? last_applied))) in
   let l3 := if 0 <? processed then l2 <| l_processed := processed |> else l2 in
-  let r1 := r <| r_msgs := [] |> <| r_leader_update := None |> <| r_dropped_entries := [] |>
+  let r1 := r <| r_msgs := [] |> <| r_log_query := None |> <| r_leader_update := None |> <| r_dropped_entries := [] |>
               <| r_dropped_reads := [] |> <| r_log := l3 |> in
   let r2 := match u_state u with Some st => r1 <| r_prev_state := st |> | None => r1 end in
   let r3 := match u_ready u with [] => r2 | _ => r2 <| r_ready := [] |> end in
@@ -1189,7 +1212,7 @@ Definition new_raft (id : N) (kind : role) (et ht : N) (cq pv : bool)
            (l : rlog) (addrs nonvotings witnesses : list N) (st : option (N * N * N)) (oracle : N) : raft :=
   let mk := fun ids => fold_left (fun m i => ainsert i (new_remote 0 1) m) ids [] in
   let r0 := mkRaft id Follower 0 0 0 0 l (mk addrs) (mk nonvotings) (mk witnesses) [] [] [] [] [] []
-                   0 false false 0 0 et ht 0 cq pv false false 0 None (0, 0, 0) oracle false in
+                   0 false false 0 0 et ht 0 cq pv false false 0 None (0, 0, 0) oracle None false in
   let r1 := match st with
             | Some (t, v, c) =>
               if (c <? l_committed l) || (log_last l <? c) then panic r0
